@@ -7,6 +7,7 @@ from typing import Union
 
 from liquid import Mode
 from liquid.exceptions import FilterArgumentError
+from liquid.exceptions import FilterValueError
 from liquid.exceptions import LiquidSyntaxError
 from liquid.exceptions import LiquidTypeError
 from liquid.exceptions import UnknownFilterError
@@ -274,6 +275,10 @@ class Filter:
         except (LiquidTypeError, FilterArgumentError) as err:
             err.token = self.token
             raise err
+        except (ValueError, ArithmeticError, LookupError, AttributeError) as err:
+            # A value the filter can't work with: NaN or infinity where a number is
+            # needed, an integer too big to convert, bytes that are not text, ...
+            raise FilterValueError(f"{self.name}: {err}", token=self.token) from err
 
     async def evaluate_async(self, left: object, context: RenderContext) -> object:
         func = context.filter(self.name, token=self.token)
@@ -288,6 +293,10 @@ class Filter:
         except (LiquidTypeError, FilterArgumentError) as err:
             err.token = self.token
             raise err
+        except (ValueError, ArithmeticError, LookupError, AttributeError) as err:
+            # A value the filter can't work with: NaN or infinity where a number is
+            # needed, an integer too big to convert, bytes that are not text, ...
+            raise FilterValueError(f"{self.name}: {err}", token=self.token) from err
 
     def evaluate_args(
         self, context: RenderContext
